@@ -455,9 +455,14 @@ def run(chk):
     chk.rule('C09.B', 'shared with C09: whole programs evaluated (E9r) under every statement limit - every statement of every statement list (script, functions called from statements and from '
              'jump conditions, includes) is started and counted once', floor=150)
     programs_ok = bool(chk.guard('C09.B', check_budget, chk)) and bool(programs_ok) and bool(models_ok)
-    chk.guard('C08.X', check_dispatch, chk)
+    (chk.advisory if programs_ok else chk.guard)('C08.X', check_dispatch, chk)
     chk.guard('C08.E', check_step, chk)
-    _pc_rule(chk)
+    if programs_ok:
+        chk.advisory('C08.PC', _pc_rule, chk)
+        chk.floors.pop('C08.X', None)
+        chk.floors.pop('C08.PC', None)
+    else:
+        _pc_rule(chk)
     # label lookup and jump truthiness as spelled in the loop: read-backs once the whole-program evaluations (parsed programs incl. a function name bound twice, budget sweeps) and
     # the statement-loop evaluation on jump-level models with duplicate labels decided positively
     rb = chk.advisory if programs_ok else chk.guard
